@@ -1,6 +1,8 @@
 package seq
 
 import (
+	"strconv"
+	"syscall"
 	"context"
 	"encoding/json"
 	"fmt"
@@ -431,6 +433,9 @@ func TestSeq(t *testing.T) {
 	if prop == "C10" {
 		smallDefaultLeaseProbe(t, res)
 	}
+	if prop == "C09" {
+		writeFailureProbe(t, res)
+	}
 	if prop == "C07" {
 		inertMetamorphic(t, hs, res)
 	}
@@ -758,6 +763,103 @@ func inertMetamorphic(t *testing.T, hs []*History, res *common.Result) {
 	})
 }
 
+
+// writeFailureProbe (C09): the state file stops accepting writes while the server runs (its descriptor is
+// swapped for a read-only one: every Write fails as on a full disk or a revoked mount). Whatever the server
+// then does - die, refuse - a request it ANSWERS with success must be in the file it leaves: the image is
+// recovered by a fresh server and compared with the acknowledged grants and releases. Runs on the real server
+// in virtual time; Linux only (/proc/self/fd).
+func writeFailureProbe(t *testing.T, res *common.Result) {
+	for _, second := range []string{"trylock", "lock", "unlock"} {
+		second := second
+		synctest.Test(t, func(t *testing.T) {
+			cfg := impl.Cfg{Shards: 4, GcInt: time.Hour, GcIdle: time.Hour, Dlt: 10 * time.Minute, File: true}
+			dir := common.TempDir()
+			defer os.RemoveAll(dir)
+			im := impl.New(cfg, dir)
+			defer func() {
+				defer func() { recover() }() // a server that panicked on the failed write may not close cleanly
+				im.Close()
+			}()
+			lines := []string{}
+			run := func(o impl.Op) impl.Resp {
+				r := im.Exec(o)
+				lines = append(lines, fmt.Sprintf("%s -> ok=%v err=%s panic=%q", o.Line(), r.Ok, r.Err, r.Panic))
+				return r
+			}
+			run(impl.Op{Kind: "connect", Sid: "s1"})
+			a := run(impl.Op{Kind: "trylock", Sid: "s1", Name: "alpha"})
+			b0 := run(impl.Op{Kind: "trylock", Sid: "s1", Name: "beta"})
+			if !a.Ok || !b0.Ok {
+				return
+			}
+			// swap the descriptor of the state file for a read-only one
+			swapped := false
+			fds := []int{}
+			swap := func(mode int) {
+				for _, fd := range fds {
+					if nf, err := syscall.Open(im.StatePath, mode, 0); err == nil {
+						if syscall.Dup3(nf, fd, 0) == nil {
+							swapped = true
+						}
+						syscall.Close(nf)
+					}
+				}
+			}
+			if ents, err := os.ReadDir("/proc/self/fd"); err == nil {
+				for _, e := range ents {
+					if l, err := os.Readlink("/proc/self/fd/" + e.Name()); err == nil && l == im.StatePath {
+						fd, _ := strconv.Atoi(e.Name())
+						fds = append(fds, fd)
+					}
+				}
+			}
+			swap(syscall.O_RDONLY)
+			defer swap(syscall.O_RDWR) // writable again before the server is closed
+			res.Count(fmt.Sprintf("write-failure-probe:descriptor-swapped=%v", swapped))
+			if !swapped {
+				return
+			}
+			lines = append(lines, "(the state file's descriptor is now read-only: every write fails)")
+			var r impl.Resp
+			switch second {
+			case "trylock":
+				r = run(impl.Op{Kind: "trylock", Sid: "s1", Name: "gamma"})
+			case "lock":
+				r = run(impl.Op{Kind: "lock", Sid: "s1", Name: "gamma", Wt: p32(1)})
+			case "unlock":
+				r = run(impl.Op{Kind: "unlock", Sid: "s1", Name: "beta", Key: "K1"})
+			}
+			res.Eval("write-failure-probe|"+second, true)
+			img, _ := os.ReadFile(im.StatePath)
+			// recover the image with a fresh server on a copy
+			dir2 := common.TempDir()
+			defer os.RemoveAll(dir2)
+			os.WriteFile(filepath.Join(dir2, "state"), img, 0o644)
+			im2 := impl.New(cfg, dir2)
+			defer im2.Close()
+			restored := map[string]bool{}
+			if im2.LS != nil {
+				for _, l := range im2.LS.Locks() {
+					restored[l.Name()] = true
+				}
+			}
+			rp := map[string]any{"cfg": cfg.Line(), "ops": lines, "restored_by_the_next_start": common.SortedKeys(restored)}
+			switch {
+			case (second == "trylock" || second == "lock") && r.Ok && r.Panic == "" && !restored["gamma"]:
+				res.Find(common.Finding{Kind: "violation", Property: "C09", Signature: "seq:crash:acked-grant-not-in-file",
+					What: fmt.Sprintf("the state file refuses writes; %s of \"gamma\" was nevertheless answered locked=true, and the next start on the file the server left does not restore that hold (restored: %v)", second, common.SortedKeys(restored)), Replay: rp})
+			case second == "unlock" && r.Ok && r.Panic == "" && restored["beta"]:
+				res.Find(common.Finding{Kind: "violation", Property: "C09", Signature: "seq:crash:acked-release-still-in-file",
+					What: "the state file refuses writes; Unlock of \"beta\" was nevertheless answered unlocked=true, and the next start on the file the server left restores that hold", Replay: rp})
+			}
+			if !restored["alpha"] {
+				res.Find(common.Finding{Kind: "violation", Property: "C09", Signature: "seq:crash:acked-grant-not-in-file",
+					What: "after a failed write the file the server left no longer restores \"alpha\", whose grant was acknowledged before the failure and which was never released", Replay: rp})
+			}
+		})
+	}
+}
 
 // smallDefaultLeaseProbe (C10): "otherwise expires after the configured default lock timeout" for the
 // smallest configurations - a default of 0 and of 1 ns: the restored hold is gone as soon as the clock has
